@@ -68,6 +68,10 @@ for op in ('div', 'mod'):
     funcs += [dict(cls='evplus_' + op, name='stopOnEqualArgs', file=opfile(op), static=True), dict(cls='evplus_' + op, name='simplifiesToFirstArg', file=opfile(op), static=True),
               dict(cls='evplus_' + op, name='simplifiesToSecondArg', file=opfile(op), static=True)]
     jobs.append(job('evplus_%s_shortcuts' % op, 'lemma_evplus_%s_shortcuts' % op, props=['C05', 'C16']))
+funcs += [dict(cls='evplus_mult', name='simplifiesToFirstArg', file=opfile('mult'), static=True), dict(cls='evplus_mult', name='simplifiesToSecondArg', file=opfile('mult'), static=True)]
+for op in ('mult', 'div', 'mod'):
+    # shortcuts with non-terminal operands, point-wise (the operand's value at an arbitrary assignment is a ghost)
+    jobs.append(job('evplus_%s_shortcuts_pw' % op, 'lemma_evplus_%s_shortcuts_pw' % op, props=['C05']))
 for op in ('mult', 'div', 'mod'):
     funcs.append(dict(cls='evplus_' + op, name='apply', file=opfile(op), static=True, sel=r'^const edge_value &av, node_handle an', cname='evplus_%s__apply' % op, argc_key=6))
     # 64-bit multiply / divide / remainder equivalence: thorough tier only (did not finish in 600 s on SAT)
